@@ -264,6 +264,72 @@ static void long_insert(void)
 	}
 }
 
+/* long recorded commands below the 4 KiB recording buffer: '.' must still equal retyping */
+static char (*long_out)[20000];		/* shared: the file written by each twin */
+static void long_repeat(void)
+{
+	static const int lens[] = {1, 100, 500, 1000, 1021, 1022, 1023, 1024, 1025, 1500, 2046, 2047, 2048, 2049, 3000, 3500, 4000, 4080, 4090};
+	int i, tw;
+	if (!long_out)
+		long_out = mmap(NULL, 2 * sizeof(long_out[0]), PROT_READ | PROT_WRITE, MAP_SHARED | MAP_ANONYMOUS, -1, 0);
+	for (i = 0; i < (int) (sizeof(lens) / sizeof(lens[0])); i++) {
+		int died = 0;
+		if ((cfgidx++ % nv_nshards) != nv_shard)
+			continue;
+		for (tw = 0; tw < 2; tw++) {
+			pid_t pid;
+			int st;
+			long_out[tw][0] = '\0';
+			fflush(nv_out);
+			pid = fork();
+			if (!pid) {
+				char *argv[] = {"vi", "-v", "f", NULL};
+				char *in = malloc(2 * lens[i] + 128);
+				struct vfile *f;
+				int o = 0, j, rep;
+				vfs_n = 0;
+				vfs_put("f", "abcdef\nsecond\n", -1);
+				in[o++] = 'x';				/* an earlier, short change */
+				in[o++] = 'j';
+				for (rep = 0; rep < (tw ? 2 : 1); rep++) {
+					in[o++] = 'A';
+					for (j = 0; j < lens[i]; j++)
+						in[o++] = "qrs \xc3\xa9"[j % 6 == 5 ? 0 : j % 6 == 4 ? 0 : j % 4];
+					in[o++] = 27;
+					in[o++] = 'k';
+					in[o++] = '0';
+				}
+				if (!tw)
+					in[o++] = '.';
+				o += sprintf(in + o, ":w! out\n:q!\n");
+				nvx_feed(in, o);
+				signal(SIGALRM, nx_alarm);
+				alarm(nx_horizon);
+				nx_in_leaf = 1;
+				nv_main(3, argv);
+				f = vfs_find("out");
+				snprintf(long_out[tw], sizeof(long_out[tw]), "%s", f && f->exists ? f->data : "(no file written)");
+				_exit(0);
+			}
+			while (waitpid(pid, &st, 0) < 0)
+				;
+			if (WIFSIGNALED(st) || (WIFEXITED(st) && WEXITSTATUS(st))) {
+				nv_viol("c09-long-insert", "kind=recording an append of %d bytes followed by %s: the editor died (status %d)", lens[i], tw ? "retyping" : "'.'", st);
+				died = 1;
+			}
+			nv_stat("transitions", 1);
+		}
+		__sync_fetch_and_add(&nx_sh->hist[0], 1);
+		if (!died && strcmp(long_out[0], long_out[1])) {
+			int d0 = 0;
+			while (long_out[0][d0] && long_out[0][d0] == long_out[1][d0])
+				d0++;
+			nv_viol("c09-differs", "kind=long-record keys \"xjA<%d bytes><ESC>k0.\" and retyping the append give different files (lengths %d and %d, first difference at byte %d)",
+				lens[i], (int) strlen(long_out[0]), (int) strlen(long_out[1]), d0);
+		}
+	}
+}
+
 int main(int argc, char **argv)
 {
 	int d, b, r;
@@ -290,6 +356,7 @@ int main(int argc, char **argv)
 				run_config(b, r, 9, d);
 		}
 	long_insert();
+	long_repeat();
 	nv_stat("max:depth", d);
 	nv_stat("change_commands", nv_shard == 0 ? NCH : 0);
 	if (nv_shard == 0)
